@@ -124,8 +124,13 @@ func init() {
 			return nil
 		},
 		"(*sync.WaitGroup).Wait": func(fr *frame, args []value) value {
-			if *fr.i.waitGroup(args[0].(*value)) != 0 {
-				unsupported("sync.WaitGroup.Wait with a non-zero counter (needs another goroutine)")
+			if n := *fr.i.waitGroup(args[0].(*value)); n != 0 {
+				// one goroutine, nobody left to call Done: this Wait never returns
+				if ps := fr.i.ps; ps != nil && fr.i.inInit == 0 {
+					ps.violated("fatal", fmt.Sprintf("sync.WaitGroup.Wait blocks forever (counter %d and no goroutine left to call Done)", n), ps.cx.True())
+					ps.fail("done", "blocked in sync.WaitGroup.Wait")
+				}
+				unsupported("sync.WaitGroup.Wait with a non-zero counter during initialisation")
 			}
 			return nil
 		},
